@@ -18,9 +18,10 @@ WRAPS = ["read", "write", "epoll_pwait", "sched_yield"]
 # --------------------------------------------------------------------------
 # cases
 # --------------------------------------------------------------------------
-def fmt_case(hooks, n, e0, lscript, senders, beh, sig, sched):
-    return "%d ; 1 ; %d ; %d ; %s ; %s ; %s ; %s ; %s" % (
-        hooks, n, e0, " ".join(lscript), " | ".join(" ".join(map(str, s)) for s in senders),
+def fmt_case(hooks, n, e0, lscript, senders, beh, sig, sched, nullmask=0):
+    """nullmask: bit k set = handle k is created with a NULL callback (a pure waker)."""
+    return "%d ; 1 ; %s ; %d ; %s ; %s ; %s ; %s ; %s" % (
+        hooks, ("%d:%d" % (n, nullmask)) if nullmask else str(n), e0, " ".join(lscript), " | ".join(" ".join(map(str, s)) for s in senders),
         " | ".join(" ".join(map(str, b)) for b in beh),
         ("%d,%d" % sig) if sig else "-", " ".join(map(str, sched)))
 
@@ -87,7 +88,10 @@ def gen_case(rng, hooks):
             ls += [rng.choice(["D", "R", "N"]), "D", "D", "D"]
     else:
         ls += [rng.choice(["R", "N"]) for _ in range(rng.randint(1, 3))]
-    return fmt_case(hooks, n, e0, ls, senders, beh, sig, gen_sched(rng, len(senders) + 1))
+    nullmask = 0
+    if rng.random() < 0.4:                         # some handles are pure wakers (NULL callback)
+        nullmask = rng.randrange(1, 1 << n)
+    return fmt_case(hooks, n, e0, ls, senders, beh, sig, gen_sched(rng, len(senders) + 1), nullmask)
 
 
 # small configurations whose schedules are enumerated (bounded number of preemptions)
@@ -102,15 +106,20 @@ ENUM_CONFIGS = [
     # the first callback calls uv_stop() while a send is outstanding on the other handle
     (2, 0, ["D", "D"], [[0], [1]], [["s"]]),
     (2, 0, ["D", "N", "R"], [[1, 0]], [["s"], ["s"]]),
+    # handles created with a NULL callback: two sends on the waker, mixed with an ordinary handle
+    (1, 0, ["D"], [[0, 0]], [[]], 1),
+    (2, 0, ["D"], [[0, 1], [0]], [[]], 1),
+    (2, 0, ["R", "D"], [[1, 1, 0]], [[]], 2),
 ]
 
 
 def enumerate_schedules(model, hooks, cfg, k, limit):
-    n, e0, ls, senders, beh = cfg
-    spec = fmt_case(hooks, n, e0, ls, senders, beh, None, []) + " ; %d ; %d" % (k, limit)
+    n, e0, ls, senders, beh = cfg[:5]
+    nullmask = cfg[5] if len(cfg) > 5 else 0
+    spec = fmt_case(hooks, n, e0, ls, senders, beh, None, [], nullmask) + " ; %d ; %d" % (k, limit)
     out, rc, err = vf.run_lines([model, "enum"], [spec])
     scheds = [l for l in out if l != "."]
-    return [fmt_case(hooks, n, e0, ls, senders, beh, None, s.split()) for s in scheds]
+    return [fmt_case(hooks, n, e0, ls, senders, beh, None, s.split(), nullmask) for s in scheds]
 
 
 # --------------------------------------------------------------------------
@@ -119,7 +128,9 @@ def enumerate_schedules(model, hooks, cfg, k, limit):
 def parse_case(case):
     f = [x.strip() for x in case.split(";")]
     senders = [[int(x) for x in s.split()] for s in f[5].split("|")]
-    return {"hooks": f[0] == "1", "n": int(f[2]), "e0": int(f[3]), "lscript": f[4].split(),
+    nf = f[2].split(":")
+    return {"hooks": f[0] == "1", "n": int(nf[0]), "nullmask": int(nf[1]) if len(nf) > 1 else 0,
+            "e0": int(f[3]), "lscript": f[4].split(),
             "senders": senders, "sig": f[7]}
 
 
@@ -185,11 +196,28 @@ def monitor(case, line):
     if verdict in ("spin", "stuck"):
         return "deadlock (%s): nobody can run and the loop thread has not finished" % verdict
     if verdict == "blocked":
+        last_obs = None
+        for t in toks:
+            if t[0].isdigit():
+                p = t.split(".")
+                if len(p) > 4:
+                    last_obs = (p[3], p[4])
         for hm in re.finditer(r"h(\d+)=(\d+)/(\d+)/(\d+)/(\d+)/(\w)", rest):
             h, pub, seen, ncb, nb, stt = hm.groups()
+            null = (c["nullmask"] >> int(h)) & 1
             if stt == "o" and int(seen) < int(pub):
+                if null:
+                    return ("lost wake-up: all sends returned and the loop is blocked in epoll_pwait, but the loop "
+                            "consumed the pending flag of handle %s (created with a NULL callback) for only %s of %s "
+                            "sends" % (h, seen, pub))
                 return ("lost wake-up: all sends returned and the loop is blocked in epoll_pwait, but the last "
                         "callback of handle %s saw %s of %s published" % (h, seen, pub))
+            # the wake invariant, on what the implementation shows: blocked with the eventfd empty
+            if stt == "o" and last_obs and last_obs[1] == "0":
+                ob = last_obs[0].split(",")
+                if int(h) < len(ob) and ob[int(h)][0] == "1":
+                    return ("the loop is blocked in epoll_pwait with the eventfd counter 0 while handle %s has "
+                            "pending = 1: no later uv_async_send on it can wake the loop" % h)
     return None
 
 
